@@ -85,6 +85,9 @@ def main(argv=None):
         print(f"MACHINERY ERROR in {pid}:\n{traceback.format_exc()}", file=sys.stderr)
         sys.exit(2)
     wall = time.time() - t0
+    if not args.only and not rep["coverage"].get("evaluations") and not rep["coverage"].get("programs"):
+        print(f"MACHINERY ERROR in {pid}: vacuous run (nothing was explored)", file=sys.stderr)
+        sys.exit(2)
 
     known = findings.load()
     seen_known = {}
@@ -124,8 +127,12 @@ def main(argv=None):
     if args.only is None and not os.environ.get("VERIF_NO_EVIDENCE"):
         cov = rep["coverage"]
         cov["known_findings_matched"] = sum(seen_known.values())
-        path = evidence.write(pid, args.tier, seed, rep["level"], cov, wall, len(new_viol),
-                              assumptions=rep.get("assumptions", ()), known_findings=sorted(seen_known))
+        try:
+            path = evidence.write(pid, args.tier, seed, rep["level"], cov, wall, len(new_viol),
+                                  assumptions=rep.get("assumptions", ()), known_findings=sorted(seen_known))
+        except Exception as e:
+            print(f"MACHINERY ERROR in {pid}: evidence not valid: {e}", file=sys.stderr)
+            sys.exit(2)
     summ = {k: rep["coverage"].get(k) for k in ("states", "transitions", "evaluations", "distinct_nontrivial", "exhaustive", "programs") if k in rep["coverage"]}
     print(f"{pid} tier={args.tier} seed={seed} {summ} violations={len(new_viol)} known={sum(seen_known.values())} wall={wall:.1f}s")
     sys.exit(code)
